@@ -227,7 +227,16 @@ func runC06(tier string, seed uint64) {
 				if len(ups) == 0 || rng.Intn(15) == 0 {
 					return &upl{key: keys[rng.Intn(2)], id: "424242", etags: map[int]string{}}
 				}
-				return ups[rng.Intn(len(ups))]
+				u := ups[rng.Intn(len(ups))]
+				if rng.Intn(8) == 0 {
+					// a live upload id addressed through the other key: NoSuchUpload, and nothing changes
+					other := keys[0]
+					if u.key == keys[0] {
+						other = keys[1]
+					}
+					return &upl{key: other, id: u.id, etags: u.etags}
+				}
+				return u
 			}
 			for j := 0; j < length; j++ {
 				switch w := rng.Intn(100); {
@@ -336,7 +345,7 @@ func runC06(tier string, seed uint64) {
 			s.end()
 		}
 	}
-	sample("histories of 30 ops: initiate (with/without metadata) / upload-part n in {1..4, 7, 9999, 10000, 10001, 0, -1} incl. re-upload and empty body / complete (all parts ascending, subset, permutation, unknown number, wrong etag, duplicate, unquoted etags, empty list; each defect also combined with a subset list; a rejected complete is followed by list-parts) / abort / get / list-parts / list-uploads over 2 keys and several simultaneous uploads, on every backend")
+	sample("histories of 30 ops: initiate (with/without metadata) / upload-part n in {1..4, 7, 9999, 10000, 10001, 0, -1} incl. re-upload and empty body / complete (all parts ascending, subset, permutation, unknown number, wrong etag, duplicate, unquoted etags, empty list; each defect also combined with a subset list; a rejected complete is followed by list-parts) / abort / get / list-parts / list-uploads over 2 keys and several simultaneous uploads (upload ids also used through the other key's URL), on every backend")
 }
 
 // ---------------------------------------------------------------- C14
@@ -354,6 +363,9 @@ func runC14(tier string, seed uint64) {
 		s.MkBucket(b)
 		var ups []*upl
 		nk := 2 + rng.Intn(4)
+		if i%3 == 0 {
+			nk = rng.Intn(2) // one or two keys: many uploads of the same key, removed from the middle of its list
+		}
 		for j := 0; j < 14+rng.Intn(10); j++ {
 			switch w := rng.Intn(100); {
 			case w < 35 || len(ups) == 0:
@@ -363,7 +375,7 @@ func runC14(tier string, seed uint64) {
 				}
 			case w < 75:
 				u := ups[rng.Intn(len(ups))]
-				pn := []int{1, 2, 3, 5, 8, 13, 40}[rng.Intn(7)]
+				pn := []int{1, 2, 3, 5, 8, 13, 40, 9999, 10000}[rng.Intn(9)]
 				if et := s.UploadPart(b, u.key, u.id, pn, c06Body(rng, j)); et != "" {
 					u.etags[pn] = et
 				}
@@ -411,7 +423,7 @@ func runC14(tier string, seed uint64) {
 				emit(s.prop, "PE", boolField(term))
 				nontrivial(fmt.Sprint("parts", i, u.id, lim))
 			}
-			for _, m := range []int{0, 1, 2, 4, 13, 14, 41, 42, 1000000} {
+			for _, m := range []int{0, 1, 2, 4, 13, 14, 41, 42, 9999, 10000, 10001, 20000, 1000000, 1 << 40} {
 				s.ListParts(b, u.key, u.id, m, 1+rng.Intn(3))
 			}
 		}
